@@ -171,7 +171,10 @@ impl Case {
             1 => format!("(SIZE (1..8))({f})"),
             2 => format!("({f})(SIZE (1..8))"),
             3 => format!("(SIZE (1..8) ^ {f})"),
-            _ => format!("({f} ^ SIZE (1..8))"),
+            4 => format!("({f} ^ SIZE (1..8))"),
+            // an extensible SIZE inside the same constraint must not make the alphabet disappear
+            5 => format!("(SIZE (1..8, ...) ^ {f})"),
+            _ => format!("({f} ^ SIZE (1..8, ...))"),
         };
         if let Some(s) = &self.serial {
             c.push_str(&format!("(FROM ({}))", s.text()));
@@ -503,7 +506,7 @@ pub fn run(ctx: &Ctx) -> Report {
         }
         terms.retain(|t| !t.is_empty());
         let serial = if rng.chance(1, 6) { Some(Expr { terms: vec![vec![(at[rng.below(at.len())].clone(), None)]] }) } else { None };
-        cases.push(Case { kind: k, expr: Expr { terms }, serial, size: rng.below(5) as u8, component: rng.chance(1, 3) });
+        cases.push(Case { kind: k, expr: Expr { terms }, serial, size: rng.below(7) as u8, component: rng.chance(1, 3) });
     }
     if std::env::var("VERIF_DEBUG").is_ok() {
         eprintln!("generated {} cases at {:.1}s", cases.len(), ctx.start.elapsed().as_secs_f64());
